@@ -219,10 +219,11 @@ pub fn get(prop: &str, tier: &str) -> Option<Check> {
         },
         "C18" => Check {
             prop: "C18",
-            rule_text: "ffi client",
+            rule_text: "each run drives the generated extern \"C\" functions on the simulated runtime: (client) 3-16 operations over all eight functions with arbitrary unit ids and timeouts, outcomes forced by the peer (correct reply, any of 256 exception codes, reply-grammar variants, silence until the exact timeout in virtual ms, invalid MBAP header, peer close), invalid arguments (empty / overflowing / over-limit ranges), a queue-full burst submitted without stepping the simulation, runtime destruction with a request pending, calls after shutdown; every callback must fire exactly once with the same-named counterpart of what the Rust API reports (table written from the schema), on_destroy exactly once, listener states in order; (serial client) port-state mapping, retry strategy and baud-dependent inter-frame delay pass through unchanged; (server) each of the four write callbacks returns a scripted WriteResult (success / nine standard exceptions / raw 0-255) and must see exactly the written values, the client must receive exactly that result. Distinct = hash of operations and outcomes.",
             batches: vec![
                 Batch { name: "ffi_client", f: scen::ffi::run_client, cfg: cfg(Mode::LockStep, false, 0), runs: n(40_000, 1_500_000), real: REAL_FFI, stub: STUB_FFI },
                 Batch { name: "ffi_server_tcp", f: scen::ffi::run_server, cfg: cfg(Mode::LockStep, false, 0), runs: n(40_000, 1_500_000), real: REAL_FFI, stub: STUB_FFI },
+                Batch { name: "ffi_client_rtu", f: scen::ffi::run_client_rtu, cfg: cfg(Mode::LockStep, false, 0), runs: n(30_000, 1_000_000), real: REAL_FFI, stub: STUB_FFI },
             ],
             assumptions: vec!["only valid enumerator values cross the boundary (the generated From<c_int> impls panic on others by oo-bindgen's design)", "Java/.NET/C++ layers above the C ABI are out of scope"],
         },
